@@ -185,6 +185,101 @@ func checkC02(t *testing.T, env *report.Env, rep *report.Report) {
 		sec.Extra["live_replays"] = int64(live)
 		fs.flush(rep, c.name, 3)
 	}
+	liveAlpha := Alphabet([]string{"a"}, []string{"", "x", "y"}, []uint32{1, 2, 3}, false)
+	liveAlpha = append(liveAlpha, Op{Kind: "put", Name: "b", Value: "x"}, Op{Kind: "delete", Name: "b"})
+	if env.Thorough() {
+		liveTree(rep, env, "live-tree-no-restart-depth5", liveAlpha, 5)
+	} else {
+		liveTree(rep, env, "live-tree-no-restart-depth4", liveAlpha, 4)
+	}
+}
+
+// liveTree executes every history over alpha up to depth on a database that is never reopened, without
+// merging histories: state that only exists in memory (and that the restart-before-every-operation search
+// therefore cannot see) is exercised here.  Only the last step of each history needs judging (its prefixes
+// are histories of their own).
+func liveTree(rep *report.Report, env *report.Env, name string, alpha []Op, depth int) {
+	sec := rep.Add(&report.Section{Name: name, Engine: "seqx", Exhaustive: true, Extra: map[string]int64{},
+		Rule:  "full tree of operation histories (never merged) on one live database instance per history, no restarts; the last step's result class, returned version, canonical state and full observable state are compared with the model; non-trivial = histories whose last operation changes the state",
+		Bound: fmt.Sprintf("depth %d, %d operations", depth, len(alpha))})
+	fs := &failSet{}
+	var mu sync.Mutex
+	var wg sync.WaitGroup
+	type job struct{ first []Op }
+	ch := make(chan job)
+	for w := 0; w < 16; w++ {
+		wg.Add(1)
+		go func() {
+			defer wg.Done()
+			dir := hx.Scratch("live-")
+			defer os.RemoveAll(dir)
+			var evals, nontriv int64
+			var rec func(hist []Op)
+			rec = func(hist []Op) {
+				if env.Expired() {
+					mu.Lock()
+					sec.Exhaustive = false
+					mu.Unlock()
+					return
+				}
+				d, _, err := OpenFile(dir, nil)
+				if err != nil {
+					panic(err)
+				}
+				m := model.NewKV()
+				for i, o := range hist {
+					res := Apply(d, hx.Super(), o)
+					before := m.Clone()
+					wantV, acc := ApplyModel(m, o)
+					if res.Class != model.OK {
+						m = before
+					}
+					if i == len(hist)-1 {
+						evals++
+						if m.Key() != before.Key() {
+							nontriv++
+						}
+						switch {
+						case !model.In(res.Class, acc):
+							fs.add("live-result-class:"+o.String(), fmt.Sprintf("live history %v: last step returned %v (%s), model accepts %v", hist, res.Class, res.Err, acc), hist)
+						case res.Class == model.OK && o.Kind == "put" && res.Ver != wantV:
+							fs.add("live-put-version", fmt.Sprintf("live history %v: put returned version %d, model says %d", hist, res.Ver, wantV), hist)
+						case hx.DumpKey(d) != m.Key():
+							fs.add("live-state-differs", fmt.Sprintf("live history %v: database state %s, model %s", hist, hx.DumpKey(d), m.Key()), hist)
+						default:
+							if got, want := hx.Observe(d, ObsNames, 5), hx.ObserveModel(m, ObsNames, 5); got != want {
+								fs.add("live-observable-state", fmt.Sprintf("live history %v: observable state %s, model %s", hist, got, want), hist)
+							}
+						}
+					}
+				}
+				if len(hist) == depth {
+					return
+				}
+				for _, o := range alpha {
+					rec(append(append([]Op{}, hist...), o))
+				}
+			}
+			for j := range ch {
+				rec(j.first)
+			}
+			mu.Lock()
+			sec.Evaluations += evals
+			sec.Nontrivial += nontriv
+			mu.Unlock()
+		}()
+	}
+	for _, a := range alpha {
+		for _, b := range alpha {
+			ch <- job{[]Op{a, b}}
+		}
+	}
+	close(ch)
+	wg.Wait()
+	// depth-1 histories
+	sec.States, sec.Transitions = sec.Evaluations, sec.Evaluations
+	sec.Samples = append(sec.Samples, "put(a,x) put(a,y) delver(a,2) put(a,y)  (all on one live instance)")
+	fs.flush(rep, name, 3)
 }
 
 // replayHistory re-executes a recorded history live and with restarts, against the model.
